@@ -95,6 +95,7 @@ def plan(prop, tier, seed):
             return [
                 ("asan", f"n=3,e=3,m=2,x=2,plain=0,sameref=0,bare=0,keep=0,probe=1,layouts={L(6)}", []),
                 ("asan", f"n=3,e=2,m=2,x=1,plain=0,sameref=0,bare=0,keep=0,w=1,ws=1,weak=1,probe=1,layouts={L(4)}", []),
+                ("asan", f"n=3,e=5,m=1,x=1,plain=0,sameref=0,bare=0,keep=0,probe=1,layouts={L(8)}", []),
             ]
         return [
             ("asan", f"n=3,e=4,m=3,x=2,plain=0,sameref=0,bare=0,keep=0,probe=1,layouts={L(16)}", []),
@@ -104,7 +105,10 @@ def plan(prop, tier, seed):
         ]
     if prop == "C10":
         if q:
-            return [("asan", f"n=3,e=2,m=1,x=2,plain=1,sameref=0,bare=0,keep=0,s=1,sapi=1,layouts={L(2)}", [])]
+            return [
+                ("asan", f"n=3,e=2,m=1,x=2,plain=1,sameref=0,bare=0,keep=0,s=1,sapi=1,layouts={L(2)}", []),
+                ("asan", f"n=3,e=3,m=1,x=2,plain=0,sameref=0,bare=0,keep=0,s=1,sapi=1,layouts={L(2)}", []),
+            ]
         return [
             ("asan", f"n=3,e=2,m=1,x=1,w=1,ws=0,weak=1,plain=1,sameref=0,bare=0,keep=0,s=1,sapi=1,layouts={L(2)}", []),
             ("asan", f"n=3,e=3,m=2,x=1,plain=1,sameref=0,bare=0,keep=0,s=1,sapi=1,layouts={L(3)}", []),
@@ -126,17 +130,20 @@ def plan(prop, tier, seed):
         ]
     if prop == "C13":
         if q:
-            return [("asan", f"n=3,e=2,m=2,x=2,plain=1,sameref=1,bare=0,keep=1,elide=1,layouts={L(2)}", [])]
+            return [
+                ("asan", f"n=3,e=2,m=2,x=2,plain=1,sameref=1,bare=0,keep=1,elide=1,layouts={L(2)}", []),
+                ("asan", f"n=2,e=3,m=2,x=2,plain=1,sameref=0,bare=0,keep=0,elide=2,layouts={L(2)}", []),
+            ]
         return [
             ("asan", f"n=3,e=3,m=2,x=2,plain=1,sameref=1,bare=0,keep=1,elide=1,layouts={L(2)}", []),
             ("asan", f"n=3,e=3,m=2,x=1,plain=1,sameref=0,bare=0,keep=0,elide=2,layouts={L(2)}", []),
         ]
     if prop == "C14":
         if q:
-            return [("plain", f"n=3,e=3,m=2,x=2,{CORE},layouts=0", ["--cost"])]
+            return [("plain", f"n=3,e=3,m=2,x=2,{CORE},past=1,layouts=0", ["--cost"])]
         return [
-            ("plain", f"n=3,e=4,m=3,x=2,{CORE},layouts=0+1", ["--cost"]),
-            ("plain", f"n=3,e=3,m=2,x=2,w=1,ws=1,weak=1,plain=1,sameref=1,bare=1,keep=0,layouts=0", ["--cost"]),
+            ("plain", f"n=3,e=4,m=3,x=2,{CORE},past=1,layouts=0+1", ["--cost"]),
+            ("plain", f"n=3,e=3,m=2,x=2,w=1,ws=1,weak=1,plain=1,sameref=1,bare=1,keep=0,past=1,layouts=0", ["--cost"]),
         ]
     if prop == "C16":
         if q:
@@ -184,10 +191,10 @@ def attribute(clause, sig, history):
             # C05: Weak::upgrade asked from inside destructors
             return "C05" if clause in ("K5", "K2", "CRASH") else "OTHER"
         if fam in ("dropown", "cloneown"):
-            return "C16" if clause in ("K16", "K6", "K2", "CRASH") else "OTHER"
+            return "C16" if clause in ("K16", "K6", "K2", "K10", "CRASH") else "OTHER"
         return "C10" if clause in ("K1", "K2", "K3", "K4", "K5", "K6", "K10", "CRASH") and "loopback=1" not in sig else "OTHER"
     if any(o.split(":")[0] in CONSUMING for o in ops):
-        return "C12" if clause in ("K1", "K2", "K4", "K5", "K6", "K8", "K12", "CRASH") and "loopback=1" not in sig else "OTHER"
+        return "C12" if clause in ("K1", "K2", "K3", "K4", "K5", "K6", "K8", "K12", "CRASH") and "loopback=1" not in sig else "OTHER"
     if any(o.startswith("take:") and o.endswith(":elide") for o in ops):
         return "C13" if clause in ("K13", "K1", "K2", "CRASH") else "OTHER"
     if clause == "CRASH":
